@@ -425,7 +425,8 @@ func (e *c17SM) gen(r *vg.Rand) c17SMCase {
 		}
 		pr := []int32{rd, rd, rd, rd + 1, math.MaxInt32, 0}[r.Intn(6)]
 		pol := []int32{-1, -1, rd - 1, rd, rd + 1, pr - 1, pr, math.MaxInt32, -2}[r.Intn(9)]
-		total := []uint32{0, 1, T, uint32(types.MaxBlockPartsCount), uint32(types.MaxBlockPartsCount) + 1}[r.Intn(5)]
+		total := []uint32{0, 1, T, uint32(types.MaxBlockPartsCount), uint32(types.MaxBlockPartsCount) + 1,
+			uint32(types.MaxBlockPartsCount) + 2 + uint32(r.Intn(1<<20-int(types.MaxBlockPartsCount)-1))}[r.Intn(6)]
 		bid := tmproto.BlockID{Hash: c17Fill(32, 0xB1), PartSetHeader: tmproto.PartSetHeader{Total: total, Hash: c17Fill(32, 0xB2)}}
 		if total == T && r.Bool() {
 			bid = live
@@ -501,7 +502,8 @@ func (e *c17SM) gen(r *vg.Rand) c17SMCase {
 			vh = h + 1
 		}
 		vr := []int32{rd, rd, rd + 1}[r.Intn(3)]
-		total := []uint32{0, 1, T, T, uint32(types.MaxBlockPartsCount), uint32(types.MaxBlockPartsCount) + 1}[r.Intn(6)]
+		total := []uint32{0, 1, T, T, uint32(types.MaxBlockPartsCount), uint32(types.MaxBlockPartsCount) + 1,
+			uint32(types.MaxBlockPartsCount) + 2 + uint32(r.Intn(1<<20-int(types.MaxBlockPartsCount)-1))}[r.Intn(7)]
 		hash := c17Fill(32, 0xC1)
 		if total == T && e.scen != 3 {
 			hash = e.liveBID.PartSetHeader.Hash
